@@ -292,6 +292,15 @@ pub fn check(choices: &Vec<u16>) -> Out {
     let Some(t0) = run(&program, &g.case, ExecutionOptions::default())? else {
         return Ok(Info { classes: vec!["skipped:exec".into()], ..Info::default() });
     };
+    // what the host saw (emit events with their clock): decorators reach the host the same way
+    // however the program was assembled
+    let host_log = |prog: &vm_core::Program| -> Vec<(u32, u32, u32)> {
+        match vm::run(prog, &g.case, ExecutionOptions::default()) {
+            Ran::Ok(_, log) => log.events.iter().copied().filter(|e| e.0 == 0 || e.0 == 3).collect(),
+            _ => vec![],
+        }
+    };
+    let log0 = host_log(&program);
     let fp0 = tk::main_fingerprint(t0.main_segment());
     let out0 = t0.stack_outputs().clone();
     let mut classes: Vec<String> = g.classes.iter().map(|s| s.to_string()).collect();
@@ -320,6 +329,17 @@ pub fn check(choices: &Vec<u16>) -> Out {
             };
             if tk::main_fingerprint(t.main_segment()) != fp0 {
                 return Err(Viol::new("C14:trace-differs:debug-mode", "main segment differs when assembled in debug mode", cj()));
+            }
+            let logd = host_log(&pd);
+            if logd != log0 {
+                return Err(Viol::new(
+                    "C14:host-events-differ:debug-mode",
+                    format!("the emit events and advice injections delivered to the host differ when the program is assembled in debug mode: {} events vs {}", logd.len(), log0.len()),
+                    cj(),
+                ));
+            }
+            if !log0.is_empty() {
+                classes.push("emit-events-compared".into());
             }
         }
         Assembled::Err(e) => return Err(Viol::new("C14:debug-mode-asm", format!("debug-mode assembly fails: {e}"), cj())),
